@@ -8,9 +8,18 @@ import (
 	"strings"
 	"time"
 
+	"github.com/playwright-community/playwright-go"
 	"oss.terrastruct.com/util-go/xmain"
+	"oss.terrastruct.com/util-go/xos"
 
+	"oss.terrastruct.com/d2/d2graph"
+	"oss.terrastruct.com/d2/d2plugin"
+	"oss.terrastruct.com/d2/d2renderers/d2ascii"
+	"oss.terrastruct.com/d2/d2renderers/d2svg"
+	"oss.terrastruct.com/d2/d2target"
 	nd "oss.terrastruct.com/d2/internal/verifnd"
+	"oss.terrastruct.com/d2/lib/simplelog"
+	"oss.terrastruct.com/d2/lib/textmeasure"
 )
 
 // ---- file-system model (engine only). The engine executes these functions
@@ -214,3 +223,109 @@ func ms2() *xmain.State {
 
 // VerifStubNop replaces initialisation that only sets up logging to os.Stderr.
 func VerifStubNop() {}
+
+// ---- the single-board render path (_render) around Write: the renderers, the
+// image bundler, the browser and the plugin are stand-ins that return the
+// bytes to write; every file-system call _render itself makes goes through
+// the model, so a step that touches the output file before the atomic write
+// is a step the process can be killed after.
+
+var c48Out string
+
+type c48Plugin struct{}
+
+func (c48Plugin) Info(context.Context) (*d2plugin.PluginInfo, error) {
+	return &d2plugin.PluginInfo{Name: "stub"}, nil
+}
+func (c48Plugin) Flags(context.Context) ([]d2plugin.PluginSpecificFlag, error) { return nil, nil }
+func (c48Plugin) HydrateOpts([]byte) error                                     { return nil }
+func (c48Plugin) Layout(context.Context, *d2graph.Graph) error                 { return nil }
+func (c48Plugin) PostProcess(ctx context.Context, in []byte) ([]byte, error)   { return in, nil }
+
+func VerifStubSVGRender(diagram *d2target.Diagram, opts *d2svg.RenderOpts) ([]byte, error) {
+	return []byte(c48Out), nil
+}
+func VerifStubASCIIRender(a *d2ascii.ASCIIartist, ctx context.Context, diagram *d2target.Diagram, opts *d2ascii.RenderOpts) ([]byte, error) {
+	return []byte(c48Out), nil
+}
+func VerifStubBundleLocal(ctx context.Context, l simplelog.Logger, inputPath string, in []byte, cacheImages bool) ([]byte, error) {
+	return in, nil
+}
+func VerifStubBundleRemote(ctx context.Context, l simplelog.Logger, in []byte, cacheImages bool) ([]byte, error) {
+	return in, nil
+}
+func VerifStubAppend(diagram *d2target.Diagram, renderOpts *d2svg.RenderOpts, ruler *textmeasure.Ruler, in []byte) []byte {
+	return in
+}
+func VerifStubConvertSVG(ms *xmain.State, browser playwright.Browser, svg []byte, animIntervalMs int) ([][]byte, error) {
+	return [][]byte{svg}, nil
+}
+func VerifStubAddExif(png []byte) ([]byte, error) { return png, nil }
+
+func VerifStubMkdirAll(path string, perm os.FileMode) error { c48Step(); return nil }
+
+func VerifStubOpenFile(name string, flag int, perm os.FileMode) (*os.File, error) {
+	c48Step()
+	_, ok := c48.files[name]
+	if !ok {
+		if flag&os.O_CREATE == 0 {
+			return nil, fs.ErrNotExist
+		}
+		c48.files[name] = ""
+		c48.modes[name] = perm
+	} else if flag&os.O_TRUNC != 0 {
+		c48.files[name] = ""
+	}
+	f := &os.File{}
+	c48.open[f] = name
+	return f, nil
+}
+
+func VerifStubCreate(name string) (*os.File, error) {
+	return VerifStubOpenFile(name, os.O_RDWR|os.O_CREATE|os.O_TRUNC, 0o666)
+}
+
+func VerifStubTruncate(name string, size int64) error {
+	c48Step()
+	if s, ok := c48.files[name]; ok && int(size) < len(s) {
+		c48.files[name] = s[:size]
+	}
+	return nil
+}
+
+// VerifC48RenderSingle: the whole single-board render path (_render for svg,
+// txt and png output), not only Write, leaves the output file with its
+// complete previous or complete new content wherever the process is killed.
+func VerifC48RenderSingle() {
+	old := nd.From("old", nd.Choose("oldlen", 0, 2), "ab")
+	c48Out = nd.From("new", nd.Choose("newlen", 1, 3), "x\n")
+	exists := nd.Bool("exists")
+	files := map[string]string{}
+	if exists {
+		files["/w/out/o.svg"] = old
+	}
+	c48New(files)
+	format := []exportExtension{SVG, TXT, PNG}[nd.Choose("format", 0, 2)]
+	want := c48Out
+	if format == SVG && want[len(want)-1] != '\n' {
+		want += "\n"
+	}
+	ms := &xmain.State{Name: "d2", PWD: "/w", Env: xos.NewEnv(nil)}
+	K := nd.Choose("K", 0, nd.Param("KMAX", 12))
+	var err error
+	crashed := c48Run(K, func() {
+		_, err = _render(context.Background(), ms, c48Plugin{}, d2svg.RenderOpts{}, "/w/in.d2", "/w/out/o.svg", false, false, nil, nil, &d2target.Diagram{}, format, "extended")
+	})
+	got, ok := c48.files["/w/out/o.svg"]
+	if crashed {
+		nd.Cover("killed")
+		if exists {
+			nd.Assert(ok && (got == old || got == want), "after a kill the output file holds its complete previous or complete new content")
+		} else {
+			nd.Assert(!ok || got == want, "after a kill a new output file is absent or complete")
+		}
+	} else {
+		nd.Cover("finished")
+		nd.Assert(err == nil && ok && got == want, "an uninterrupted render leaves the new content")
+	}
+}
